@@ -16,8 +16,22 @@ KNOWN_FINDINGS = os.path.join(VERIF, "known_findings.json")
 OK, VIOLATED, UNDECIDED = "ok", "violated", "undecided"
 
 
+_NT_CACHE: dict = {}
+
+
 def norm_text(node_or_text) -> str:
     """Normalised statement text used in construct keys (never line numbers)."""
+    if isinstance(node_or_text, ast.AST):
+        hit = _NT_CACHE.get(id(node_or_text))
+        if hit is not None and hit[0] is node_or_text:
+            return hit[1]
+        t = _norm_text(node_or_text)
+        _NT_CACHE[id(node_or_text)] = (node_or_text, t)
+        return t
+    return _norm_text(node_or_text)
+
+
+def _norm_text(node_or_text) -> str:
     if isinstance(node_or_text, ast.AST):
         try:
             t = ast.unparse(node_or_text)
